@@ -52,6 +52,12 @@ def gen_base(rng, tier, index):
                 # base 9: every worker dies in begin() (two of them after 0.6 s, i.e. after the pool started to send the orders)
                 "faults": {"0": ["begin"], "1": ["begin"], "2": ["begin"]} if b9 else None, "side_thread": b9, "ready_first": False,
                 "calls": [] if (b9 or index % 80 < 40) else [{"ordered": True, "n": 1, "chunk": 1, "form": "list"}]}
+    if index % 16 == 6:
+        # replacements right up to the end of the last call and an end() that takes 0.4 s in every worker that processed items:
+        # whoever is not joined (a replaced worker, the last retiring one) is still inside end() when the context is left
+        q = 1 + (index // 16) % 3
+        return {"pool": "factory", "workers": 2, "quota": q, "wq": 1.0, "rq": None, "end_delay": 0.4, "begin_delay": 0, "ready_first": False,
+                "calls": [{"ordered": True, "n": 2 * q * 2, "chunk": 1, "form": "list"}, {"ordered": False, "n": 2 * q, "chunk": 1, "form": "gen"}]}
     case = c03.gen_base(rng, tier, index)
     case.pop("join_timeout", None)       # the property speaks about pools without join_timeout
     case.pop("no_sweep", None)
